@@ -666,3 +666,52 @@ def v7_zeroes(ctx) -> None:
                           construct="DisjointUnion.random_sample_sub_objects zeroes")
         else:
             ctx.ok("V7", "the union walk consults zeroes (form not judged)")
+
+
+# ------------------------------------------------------------------------ V8
+def v8_queries_do_not_mutate_constructor_state(ctx) -> None:
+    """Counting / sampling queries are repeatable: a constructor's own tables
+    (extra_parameters, fixed_values, ...) are never written through an alias.  A name bound
+    directly to `self.<attr>` / `self.<attr>[...]` must not be the target of a subscript
+    store or of a mutating call (the dictionary filled for one query would leak into the
+    next)."""
+    P = ctx.P
+    mutators = {"update", "pop", "popitem", "clear", "setdefault", "append", "extend", "remove", "insert", "add", "discard"}
+    n = 0
+    for cname in ("DisjointUnion", "CartesianProduct", "Complement", "Quotient"):
+        cls = P.need_class(cname)
+        for m in cls.methods.values():
+            if m.name == "__init__" or m.name.startswith("_build"):
+                continue
+            f = m.node
+            aliases = {}
+            for st in walk_local(f):
+                t, v = PT.assign_value(st)
+                if isinstance(t, ast.Name) and v is not None:
+                    base = v
+                    while isinstance(base, ast.Subscript):
+                        base = base.value
+                    if is_self_attr(base) and (v is base or isinstance(v, ast.Subscript)):
+                        aliases[t.id] = norm(v)
+            for name, owner in aliases.items():
+                n += 1
+                bad = []
+                for x in walk_local(f):
+                    if isinstance(x, ast.Subscript) and isinstance(x.ctx, (ast.Store, ast.Del)) and isinstance(x.value, ast.Name) and x.value.id == name:
+                        bad.append(x)
+                    if isinstance(x, ast.Call) and isinstance(x.func, ast.Attribute) and x.func.attr in mutators and isinstance(x.func.value, ast.Name) \
+                            and x.func.value.id == name:
+                        bad.append(x)
+                if bad:
+                    ctx.violation("V8", C.stmt_of(bad[0]), f"{m.qualname}: `{name}` is `{owner}` itself (not a copy) and is written to: what one query stores is still "
+                                  "there for the next query with other parameter values")
+                else:
+                    ctx.ok("V8", f"{m.qualname}: alias `{name}` of {owner} is only read")
+    # the dictionaries that are filled per query are fresh
+    m = P.need_method("DisjointUnion", "get_extra_parameters", own=True)
+    fresh = PT.find_all(m.node, "_M_u = {**self.fixed_values[_M_i]}") or PT.find_all(m.node, "_M_u = dict(self.fixed_values[_M_i])") \
+        or PT.find_all(m.node, "_M_u = self.fixed_values[_M_i].copy()")
+    if fresh:
+        ctx.ok("V8", "DisjointUnion.get_extra_parameters starts each child's dictionary as a copy of its fixed values")
+    elif not any(isinstance(x, ast.Attribute) and x.attr == "fixed_values" for x in walk_local(m.node)):
+        ctx.violation("V8", m.node, "DisjointUnion.get_extra_parameters no longer starts from the child's fixed values", construct="DisjointUnion.get_extra_parameters fixed values")
